@@ -64,6 +64,11 @@ func (*engine) ID() string { return "C10" }
 // says simulation_degraded.
 func degraded() bool { return len(instrDegraded) > 0 }
 
+// FreshWorkerPerChunk: every chunk of runs starts in a new worker process, so
+// that "first use in this process" (lazy initialisation, cold caches) happens
+// many times per batch, half of the time under concurrency.
+func (*engine) FreshWorkerPerChunk() bool { return true }
+
 // StatisticalReplay implements simkit.StatisticalReplayer.
 func (*engine) StatisticalReplay() bool { return degraded() }
 
@@ -834,7 +839,7 @@ func (e *engine) Run(src *vs.Source, tier string, idx int64) (res *simkit.RunRes
 				viols = append(viols, simkit.Violation{Class: "cross-process-divergence", Sig: "result-differs/cross-process/process-history", Detail: "result-differs/cross-process/process-history: " + msg})
 			} else {
 				fail("result-differs", "cross-process", class, msg)
-				if len(viols) > 0 && strings.HasSuffix(viols[len(viols)-1].Sig, "/cross-process/"+class) {
+				if len(viols) > 0 && strings.HasSuffix(viols[len(viols)-1].Sig, "/cross-process/"+class) && (class == "repeat" || class == "per-process") {
 					// two natural-order executions in the reference process: Go's own map randomisation decides
 					viols[len(viols)-1].Statistical = true
 				}
@@ -1092,11 +1097,49 @@ func crossCheck(src *vs.Source, sc *scenario, ref [][]opResult, skip [][]bool, t
 	for t := range ref {
 		for i := range ref[t] {
 			if t < len(resp.A) && i < len(resp.A[t]) && !skip[t][i] && resp.A[t][i] != ref[t][i].Digest {
+				if d3 := freshReference(src, sc, skip, tier, idx); d3 != nil && t < len(d3) && i < len(d3[t]) && d3[t][i] != resp.A[t][i] {
+					return fmt.Sprintf("two processes running the un-instrumented library return different results for %s:\n  one   %s\n  other %s", opString(&sc.scripts[t][i]), clipAround(resp.A[t][i], d3[t][i]), clipAround(d3[t][i], resp.A[t][i])), "per-process"
+				}
 				return fmt.Sprintf("this process and the reference process (un-instrumented library) return different results for %s, each consistently:\n  here      %s\n  reference %s", opString(&sc.scripts[t][i]), clipAround(ref[t][i].Digest, resp.A[t][i]), clipAround(resp.A[t][i], ref[t][i].Digest)), "divergence"
 			}
 		}
 	}
 	return "", ""
+}
+
+// freshReference runs the scenario once in a brand-new reference process.
+func freshReference(src *vs.Source, sc *scenario, skip [][]bool, tier string, idx int64) [][]string {
+	bin := os.Getenv("VERIF_C10_REF")
+	if bin == "" {
+		return nil
+	}
+	cmd := exec.Command(bin, "refserver")
+	w, err := cmd.StdinPipe()
+	if err != nil {
+		return nil
+	}
+	r, err := cmd.StdoutPipe()
+	if err != nil {
+		return nil
+	}
+	if cmd.Start() != nil {
+		return nil
+	}
+	defer func() { w.Close(); cmd.Wait() }()
+	tr := vs.Trace{}
+	for name, entries := range src.Trace() {
+		if name == "main" || (strings.HasPrefix(name, "s") && name != "sched") {
+			tr[name] = entries
+		}
+	}
+	if json.NewEncoder(w).Encode(&refReq{Tier: tier, Idx: idx, Seed: src.Seed, Trace: tr, Skip: skip}) != nil {
+		return nil
+	}
+	var resp refResp
+	if json.NewDecoder(bufio.NewReaderSize(r, 1<<20)).Decode(&resp) != nil || resp.Err != "" {
+		return nil
+	}
+	return resp.A
 }
 
 // ClassifyDeath: in the race build the worker halts on the first report.
